@@ -133,6 +133,11 @@ type LogCase struct {
 	Base int       `json:"base"`
 	Xs   []float64 `json:"xs"`
 	Ys   []float64 `json:"ys"`
+	// EarlierMin/EarlierMax, if not both zero, are a previous life of the same scale value: it
+	// is built by NewLog on that domain and used (Map, Unmap, Nice), then its Min and Max are
+	// re-assigned to those of the case; what the first use left in the value must not matter.
+	EarlierMin float64 `json:"earlier_min,omitempty"`
+	EarlierMax float64 `json:"earlier_max,omitempty"`
 }
 
 func lnAbs(x float64) float64 { return ref.F64(ref.Ln(ref.B(math.Abs(x)))) }
@@ -145,6 +150,18 @@ var checkLog = ev.Register("log", func(c *LogCase) ev.Outcome {
 	lo, hi := math.Min(c.Min, c.Max), math.Max(c.Min, c.Max)
 	if s.Min != lo || s.Max != hi || s.Base != c.Base {
 		return ev.Fail("NewLog(%v,%v,%d) = {Min:%v Max:%v Base:%d}", c.Min, c.Max, c.Base, s.Min, s.Max, s.Base)
+	}
+	if c.EarlierMin != 0 || c.EarlierMax != 0 {
+		if s2, err2 := scale.NewLog(c.EarlierMin, c.EarlierMax, c.Base); err2 == nil {
+			s2.Map(s2.Min)
+			s2.Unmap(0.25)
+			if c.EarlierMin != c.EarlierMax {
+				(&s2).Nice(scale.TickOptions{Max: 5})
+				s2.Map(s2.Max)
+			}
+			s2.Min, s2.Max = s.Min, s.Max
+			s = s2
+		}
 	}
 	neg := lo < 0
 	cl := s
@@ -494,6 +511,14 @@ func TestLog(t *testing.T) {
 		}
 		for i := 0; i < 3; i++ {
 			c.Ys = append(c.Ys, rapid.Float64Range(-5, 5).Draw(rt, "y"))
+		}
+		switch rapid.IntRange(0, 7).Draw(rt, "reused") {
+		case 0: // the negated mirror image of the domain
+			c.EarlierMin, c.EarlierMax = -c.Max, -c.Min
+		case 1: // the same domain the other way round
+			c.EarlierMin, c.EarlierMax = c.Max, c.Min
+		case 2: // another domain of the same sign
+			c.EarlierMin, c.EarlierMax = c.Min*3, c.Max*50
 		}
 		checkLog.Run(rt, c)
 	})
